@@ -82,6 +82,10 @@ class Loan(metaclass=abc.ABCMeta):
         assert self._is_open
         self._is_open = False
 
+    def reopen(self):
+        assert not self._is_open
+        self._is_open = True
+
     def add_paid_interest(self, interest: ValueMapDict):
         self._paid_interest += interest
 
